@@ -81,6 +81,7 @@ int main(int argc, char** argv)
     prop.gen = [](int tier) {
         EncGenParams p;
         p.maxBatch = tier ? 40 : 12;
+        p.beyond16Bit = true;
         return withPriorCalls(genEncCase(p), p);
     };
     prop.run = runCase;
